@@ -31,6 +31,8 @@ type Clause struct {
 	Orig  string // as written
 	Ghost string // name of the generated ghost function
 	Line  int
+	Tags  []string // properties this clause is checked for (empty: all of the contract's)
+	Known bool     // listed as a known finding: checked, reported, never assumed
 }
 
 type LoopSpec struct {
@@ -286,7 +288,13 @@ func parseContracts(fset *token.FileSet, f *ast.File, pkgPath string) (map[strin
 				lastClause = &Clause{Orig: rest, Line: line}
 				cur.Requires = append(cur.Requires, lastClause)
 			case "ensures":
-				lastClause = &Clause{Orig: rest, Line: line}
+				var tags []string
+				for strings.HasPrefix(rest, "@") {
+					t, r, _ := strings.Cut(rest, " ")
+					tags = append(tags, t[1:])
+					rest = strings.TrimSpace(r)
+				}
+				lastClause = &Clause{Orig: rest, Line: line, Tags: tags}
 				cur.Ensures = append(cur.Ensures, lastClause)
 			case "modifies":
 				cur.HasMod = true
@@ -828,6 +836,7 @@ func Load(rel []string, ghostDir string, extra []string) (*Engine, error) {
 		tp.SSA = prog.CreatePackage(tpkg, files, info, true)
 		e.SSAPkgs[p.PkgPath] = tp.SSA
 	}
+	e.markKnownClauses()
 	for _, tp := range e.Targets {
 		tp.SSA.Build()
 		// bind contracts to SSA functions
@@ -1066,4 +1075,47 @@ func indexOutsideStrings(src, pat string) int {
 		}
 	}
 	return -1
+}
+
+// markKnownClauses flags ensures clauses that /verif/known_findings.json lists as
+// failing: they stay obligations (reported as KNOWN-FINDING) but are not assumed by callers.
+func (e *Engine) markKnownClauses() {
+	var ff FindingsFile
+	if err := readJSON("/verif/known_findings.json", &ff); err != nil {
+		return
+	}
+	for _, k := range ff.Findings {
+		i := strings.Index(k.Obligation, "#ensures[post ")
+		if i < 0 {
+			continue
+		}
+		var n int
+		if _, err := fmt.Sscanf(k.Obligation[i+len("#ensures[post "):], "%d", &n); err != nil {
+			continue
+		}
+		fname := k.Obligation[:i]
+		for _, tp := range e.Targets {
+			for _, c := range tp.Contracts {
+				if n >= 1 && n <= len(c.Ensures) && knownFnMatches(fname, c) {
+					c.Ensures[n-1].Known = true
+				}
+			}
+		}
+	}
+}
+
+func knownFnMatches(fname string, c *Contract) bool {
+	// obligation names use shortFn: "diff.CompareIntValues", "(*diff.SpecAnalyser).compareDescripton"
+	pkg := c.PkgPath[strings.LastIndex(c.PkgPath, "/")+1:]
+	k := c.Key
+	var want string
+	switch {
+	case strings.HasPrefix(k, "(*"):
+		want = "(*" + pkg + "." + k[2:]
+	case strings.Contains(k, "."):
+		want = "(" + pkg + "." + strings.Replace(k, ".", ").", 1)
+	default:
+		want = pkg + "." + k
+	}
+	return fname == want
 }
